@@ -9,7 +9,8 @@ EXPLANATION = ("LooseThenPacked::next merges two streams by comparing full refer
                "siblings are ordered as if directory names ended in '/'. The check requires, in the walkdir build (workspace) and the jwalk build "
                "(fs-walkdir-parallel), that the walker is given a custom sibling comparator (sort_by / process_read_dir, not sort_by_file_name / sort(true)) "
                "whose code consults is_dir and the byte '/' and compares the common prefix first; that SortedLoosePaths obtains its walk from that function; "
-               "and that the merge's comparison is a byte-wise Ord::cmp of names. DWIM lookup order and values are not decided.")
+               "and that the merge's comparison is a byte-wise Ord::cmp of names. ref_contents classifies NotFound and ENOTDIR (a leading component is a file) as `not here`, like git's files backend, so short-name candidates are tried in full. "
+               "DWIM lookup order and values are otherwise not decided.")
 NAIVE = r"(WalkDir::sort_by_file_name$|WalkDirGeneric::<C>::sort$|::sort_by_file_name$)"
 
 
@@ -56,6 +57,7 @@ def check_sorter(cfg, db, chk, builder_pat):
 
 
 def run(db, chk):
+    not_found_table(db, chk)
     check_sorter("ws(walkdir)", db, chk, r"walkdir::WalkDir::sort_by$")
     db2 = facts.load("fs-par")
     check_sorter("fs-par(jwalk)", db2, chk, r"::process_read_dir$")
@@ -68,3 +70,43 @@ def run(db, chk):
     for c in cm:
         ok = bool(re.search(r"(bstr::bstr::BStr|\[u8\]|gix_ref::FullNameRef|BStr)", c.callee.get("targs", "") + c.callee.get("self", "") + c.name))
         chk.ob("merge-compares-bytes", "LooseThenPacked::next cmp@%d" % c.line, ok, "compares %s" % c.callee.get("self", c.name), c.where(), key="merge-compares-bytes")
+
+
+def not_found_table(db, chk):
+    """short-name lookup tries candidate paths in git's order and must move on when a candidate cannot exist: like git's files backend (ENOENT or
+    ENOTDIR), ref_contents has to classify both `no such file` and `a leading component is a file` (refs/tags/a exists while refs/tags/a/x is
+    probed) as `not here`; any other classification turns the lookup of refs/heads/a/x by its short name into an error."""
+    from gx.flow import Flow
+    f = db.one(r"^gix_ref::store_impl::file::find::.*ref_contents$")
+    fl = Flow(f)
+    kinds, raws = set(), set()
+    for c in f.calls():
+        if c.is_(r"cmp::PartialEq(<.*>)?>?::(eq|ne)$") and len(c.args) == 2:
+            if any(fl.derives_from_call(a, r"io::error::Error::kind$|Error::kind$") for a in c.args):
+                for a in c.args:
+                    for r in fl.roots(a, stop_named=False):
+                        if r[0] == "promoted":
+                            pr = f.promoteds.get("%s::{promoted#%s}" % (f.name, r[1]))
+                            if pr is not None:
+                                kinds |= {rv[3] for bi, si, pl, rv, ln, mc in pr.assigns() if rv[0] == "agg" and rv[2].endswith("ErrorKind")}
+            if any(fl.derives_from_call(a, r"::raw_os_error$") for a in c.args):
+                for a in c.args:
+                    for r in fl.roots(a, stop_named=False):
+                        if r[0] == "promoted":
+                            pr = f.promoteds.get("%s::{promoted#%s}" % (f.name, r[1]))
+                            if pr is not None:
+                                raws |= {op.get("v") for bi, si, pl, rv, ln, mc in pr.assigns() if rv[0] == "agg" for op in rv[4] if "p" not in op}
+                        if r[0] == "const" and isinstance(r[1], int):
+                            raws.add(r[1])
+    # switch on the kind's discriminant (match err.kind() { NotFound | NotADirectory => .. })
+    for bi in f.reachable_blocks():
+        sv = f.switch_variants(bi)
+        if sv and any("NotFound" in names for names in sv["edges"].values()):
+            for names in sv["edges"].values():
+                if "NotFound" in names and len(names) <= 4:
+                    kinds |= set(names)
+    chk.floor("ref_contents: error kinds classified", len(kinds), 1)
+    ok = "NotFound" in kinds and ("NotADirectory" in kinds or 20 in raws)
+    chk.ob("missing-candidate-is-not-an-error", "ref_contents", ok,
+           "kinds treated as `not found`: %s, raw errno values: %s; git also treats ENOTDIR (20) as not found: with refs/tags/a a file, find(\"a/x\") fails on the candidate refs/tags/a/x instead of reaching refs/heads/a/x" % (sorted(kinds), sorted(x for x in raws if x is not None)),
+           "%s:%d" % (f.file, f.line), key="not-found-table|ref_contents")
